@@ -280,6 +280,22 @@ vharness!(c18_q_rejects, 8, {
     cover!(cm && un);
 });
 
+// Argument lists as such (the call shape of `Program::impls_for_trait`: impl header arguments
+// against trait-reference arguments): `[ty, lifetime, const]` with leaf kinds per class.
+fn arg_lists(la: usize, lb: usize) {
+    let ka = kids(la, 0);
+    let kb = kids(lb, 0);
+    let a = subst(&[ga_ty(ka.c0), ga_lt(ka.l), ga_const(ka.k)]);
+    let b = subst(&[ga_ty(kb.c0), ga_lt(kb.l), ga_const(kb.k)]);
+    let cm = a.as_slice(I).could_match(I, &InvariantDb, b.as_slice(I));
+    let un = unif_args(&a, &b);
+    assert!(!un || cm, "C18: could_match rejected unifiable argument lists");
+    cover!(cm && un);
+}
+vharness!(c18_q_arglist_ground, 8, { arg_lists(0, 0) });
+vharness!(c18_q_arglist_var_vs_ground, 8, { arg_lists(3, 0) });
+vharness!(c18_t_arglist_scalar_vs_boundvar, 8, { arg_lists(1, 4) });
+
 // children of mixed leaf kinds under the list-carrying constructors
 vharness!(c18_q_same_adt_var_vs_ground, 8, { same_ctor(0, (3, 0), (0, 4)) });
 vharness!(c18_t_same_tuple_var_vs_ground, 8, { same_ctor(3, (3, 1), (1, 4)) });
